@@ -52,6 +52,10 @@ void collect_tbb(RunResult &r, sim::ProcCtx &proc) {
     if (t.body_on_found) r.fired["body_on_found_accumulator"] += t.body_on_found;
     if (t.push_other_strand) r.fired["push_interleave"] += t.push_other_strand;
     if (t.reduce_multi_run) r.fired["reduce_multi_run"] += t.reduce_multi_run;
+    if (t.regions_gt64) r.fired["region_range_gt64"] += t.regions_gt64;
+    if (t.regions_gt256) r.fired["region_range_gt256"] += t.regions_gt256;
+    if (t.regions_gt1024) r.fired["region_range_gt1024"] += t.regions_gt1024;
+    r.detail["max_range"] = (long long) t.max_range;
     if (sim::tbbcfg.W > 1) r.fired["worker_cap_gt1"]++;
     r.detail["regions"] = (long long) t.regions;
     r.detail["max_active_strands"] = proc.max_active_strands;
@@ -108,7 +112,7 @@ void run_entry(const gen::GGraph &gg, const Json &cs, sim::Chooser &ch, RunResul
     // C03's measure of a non-trivial schedule
     sim::TbbStats &t = sim::tbbstats;
     bool sched_nontrivial = (t.join_both + t.join_one) > 0 || t.push_other_strand > 0;
-    r.nontrivial = r.nontrivial && sched_nontrivial;
+    if (prop != "C05") r.nontrivial = r.nontrivial && sched_nontrivial;
     r.sched_fp = ch.log.h;
     r.dkey = sim::mix64(r.dkey, ch.log.h);
     if (ar->exhausted) r.fired["arena_exhausted"] += ar->exhausted;
@@ -182,14 +186,18 @@ public:
         (void) index;
         std::string p = prop;
         if (p == "C07") p = rng.pick(std::vector<std::string> { "C03", "C03", "C09", "C20" });
+        // C05 ("each approximate algorithm ..."): the approx_*_tbb entry points share the sequential glue of
+        // detail/approx_spanner.hpp but take their own branches of it; same workload shape as C03 with approx forced
+        bool c05 = p == "C05"; if (c05) p = "C03";
         gen::GenOpts o;
         bool thorough = tier == "thorough";
         if (p == "C09") { o.inexact = true; o.allow_int = false; }
         if (thorough && p == "C03" && rng.chance(250)) { o.max_n = 30; o.max_m = 80; } else { o.max_n = 9; o.max_m = 36; }
         if (p == "C20") { o.max_n = 7; o.max_m = 14; o.allow_int = false; }
-        if (p == "C03") { o.core_sat_pm = 60; o.big_core_pm = 80; o.wide_pm = 50; }
+        if (p == "C03") { o.core_sat_pm = 60; o.big_core_pm = 80; o.wide_pm = 50; o.dense_pm = prop == "C07" ? 4 : 12; }
         if (p == "C20") {} else if (p == "C03") { o.boundary_pm = prop == "C07" ? 30 : 6; o.boundary_max_n = 129; }
-        bool approx = p == "C03" && rng.chance(330);
+        if (c05) { o.multi_pm = 200; o.dense_pm = 0; o.wide_pm = 20; }
+        bool approx = p == "C03" && (c05 || rng.chance(330));
         if (approx && rng.chance(400)) { o.max_n = std::max(o.max_n, (int) rng.range(10, 16)); o.max_m = std::max(o.max_m, 36); o.heavy_tail_pm = 1000; }
         if (approx) o.hubs_pm = 250;
         gen::GGraph g = gen::gen_graph(rng, o);
@@ -216,8 +224,9 @@ public:
             cfg["hw"] = 16;
         } else {
             int k = 1;
-            if (approx) { cs["entry"] = APPROX[rng.below(3)]; k = (int) rng.pick(std::vector<int> { 1, 1, 2, 2, 3, 4 }); if (g.family == "hubs") k = (int) rng.pick(std::vector<int> { 2, 2, 2, 3 }); }
+            if (approx) { cs["entry"] = APPROX[rng.below(3)]; k = (int) rng.pick(std::vector<int> { 1, 1, 2, 2, 3, 4 }); if (c05) k = (int) rng.pick(std::vector<int> { 1, 2, 2, 3, 3, 4, 5, 10 }); if (g.family == "hubs") k = (int) rng.pick(std::vector<int> { 2, 2, 2, 3 }); }
             else cs["entry"] = EXACT[rng.below(3)];
+            if (g.family == "dense" && !approx && rng.chance(850)) cs["entry"] = rng.chance(500) ? "fvs_trees_tbb" : "iso_trees_tbb";   // candidate lists > 256
             if (g.family == "wide" && rng.chance(700)) cs["entry"] = approx ? "approx_signed_tbb" : "signed_tbb";
             if (g.family == "core_satellites" && g.n >= 9) cs["entry"] = approx ? "approx_signed_tbb" : "signed_tbb";   // big dense cores: the vertex reduce of the signed search
             cfg["k"] = k; cmin["k"] = 1;
